@@ -28,7 +28,7 @@ def run(tier, seed):
     t0 = time.time()
     known = vlib.known_for("C08")
     viol, parts, samples, seen_known = [], [], [], {}
-    runs = [("memory", {"A", "B", "C", "D", "E", "F"})] + ([("file", {"A", "C", "D", "F"})] if tier == "thorough" else [("file", {"A", "F"})])
+    runs = [("memory", {"A", "B", "C", "D", "E", "F", "G"})] + ([("file", {"A", "C", "D", "F"})] if tier == "thorough" else [("file", {"A", "F"})])
     for backend, slices in runs:
         r = relayfam.relay_run(slices, backend=backend)
         real = []
